@@ -1,3 +1,4 @@
+import copy
 """C16 (help/man show exactly the visible interface), C17 (help layout), C18 (completion), C19 (declarations)."""
 import re
 from .. import lib, scen, runner, declgen, units, strgen
@@ -162,7 +163,8 @@ def last_word(rng, sc, g, chain):
 
 def make_c18(rng):
     g = declgen.Gen(rng, dict(types=COMP_TYPES, p_addoption=0.08, p_required=0.0, p_commands=0.65, p_desc=0.5, p_hidden=0.2, p_cmd_hidden=0.2, p_help=0.6, p_positional=0.4,
-                              p_bad_value=0.0, p_ev_garbage=0.0, p_ev_unknown=0.03, n_events=(0, 5), p_mutate_argv=0.02, p_optional=0.15,
+                              p_bad_value=0.0, p_ev_garbage=0.0, p_ev_unknown=0.06, n_events=(0, 5), p_mutate_argv=0.02, p_optional=0.15,
+                              p_ev_term=0.07, p_ev_plain=0.15, p_ignore=0.3, p_passafter=0.3, p_sibling_cmd=0.2, p_subopt=0.5,
                               p_namespace=0.6, p_group=0.4, p_alias=0.4))
     sc = g.gen_scenario()
     words = sc["ops"][0]["args"]
@@ -188,6 +190,90 @@ def oracle_c18(sc, g):
     return None
 
 
+COMP_WORDS = [b"alpha", b"alpine", b"beta", b"be ta", b"gamma", b"-dash", b"--ddash"]
+
+
+def c18_known(what, sc, words, item):
+    """narrow predicates of recorded findings (KNOWN_FINDINGS.json); returns the finding text or None"""
+    for f in lib.known_findings("C18"):
+        if f.get("match") == "after-terminator" and sc["cfg"]["opts"]["passdd"] and b"--" in words:
+            return f["text"]
+    return None
+
+
+def c18_acceptance_stream(rep, rng, n):
+    """implementation only: every offered option name / command name is accepted as such by the parser at that position
+    (ParseArgs on prefix + item, fresh parser), when the prefix itself is valid (parses, or only lacks required items)."""
+    base, cands = [], []
+    for _ in range(n):
+        sc = make_c18(rng)
+        if sc["cfg"]["handler"] not in ("none", "identity"):
+            sc["cfg"]["handler"] = "identity"       # a handler that rewrites the arguments defines its own notion of position
+        if rng.random() < 0.7:
+            sc["cfg"]["subopt"] = True
+            for a in sc["attach"]:
+                if a["kind"] == "command": a["subopt"] = True
+        args = sc["ops"][0]["args"]
+        words, partial = args[:-1], args[-1]
+        base.append((sc, words, partial))
+    comp = runner.run_impl([b[0] for b in base])
+    probes, meta = [], []
+    for (sc, words, partial), r in zip(base, comp):
+        if not r["ops"] or r["ops"][0].get("panic"):
+            continue
+        items = [scen.unhex(x.split(":")[0]) for x in r["ops"][0].get("items", "").split(";") if x and x != "none"]
+        if not items:
+            continue
+        name_mode = (partial.startswith(b"--") and b"=" not in partial) or partial == b"-"
+        if partial.startswith(b"-") and not name_mode:
+            continue
+        picked = items if len(items) <= 3 else rng.sample(items, 3)
+        for it in picked:
+            if not partial.startswith(b"-") and (it in COMP_WORDS or it.startswith(b"-")):
+                continue        # a value completion, not a command name
+            kind = "option" if partial.startswith(b"-") else "command"
+            a = copy.deepcopy({k: v for k, v in sc.items() if k != "meta"})
+            a["ops"] = [{"op": "parse", "args": list(words)}]
+            b = copy.deepcopy(a)
+            b["ops"] = [{"op": "parse", "args": list(words) + [it]}]
+            probes += [a, b]
+            meta.append((sc, words, partial, it, kind))
+    if not probes:
+        return True
+    res = runner.run_impl(probes)
+    for i, (sc, words, partial, it, kind) in enumerate(meta):
+        ra, rb = res[2 * i], res[2 * i + 1]
+        if not ra["ops"] or not rb["ops"] or ra["ops"][0].get("panic") or rb["ops"][0].get("panic"):
+            continue
+        ea, eb = scen.decode_err(ra["ops"][0]["err"]), scen.decode_err(rb["ops"][0]["err"])
+        # valid prefix: parses, or only lacks required options / arguments / a command
+        if ea is not None and not (ea[0] == "F" and ea[1] in (7, 11)):
+            continue
+        rep.count(("c18acc", tuple(words), it), nontrivial=True)
+        what = None
+        if kind == "command":
+            aa, ab = ra["ops"][0]["active"], rb["ops"][0]["active"]
+            if not (ab != aa and ab.startswith(aa)):
+                what = "offered command %r is not taken as a command by the parser after %r (active chain %r -> %r)" % (it, words, aa, ab)
+        else:
+            reta, retb = scen.decode_list(ra["ops"][0]["ret"]) or [], scen.decode_list(rb["ops"][0]["ret"]) or []
+            if eb is not None and eb[0] == "F" and eb[1] == 2:
+                what = "offered option %r is an unknown flag for the parser after %r" % (it, words)
+            elif eb is None and retb.count(it) > reta.count(it):
+                # (after an error the returned arguments are the unparsed rest, which says nothing; such probes give no verdict)
+                what = "offered option %r is returned as a plain remaining argument by the parser after %r" % (it, words)
+        if what:
+            kf = c18_known(what, sc, words, it)
+            if kf:
+                rep.known_finding(kf)
+                continue
+            rep.violation("C18: " + what, {"kind": "property-oracle", "property": "C18", "what": what, "scenario": common.scenario_json(sc),
+                                            "prefix": [lib.l1(w) for w in words], "item": lib.l1(it), "impl_prefix": ra, "impl_with_item": rb})
+            return False
+        rep.cov["traces_validated_against_impl"] += 1
+    return True
+
+
 def run_c18(rep, tier, rng, replay=None):
     rep.cov["rule"] = ("valid prefixes (options with separate/attached arguments, clusters, command words and aliases, positionals, terminator) followed by a "
                        "partial last word in long and short form, options of harness type Comp (Completer) included; ParseArgs with GO_FLAGS_COMPLETION set and a "
@@ -196,6 +282,7 @@ def run_c18(rep, tier, rng, replay=None):
     if replay:
         common.replay(rep, "C18", replay, keys=keys, oracle=oracle_c18); return
     if not lib.std_proof_phase(rep, "C18"): return
+    if not c18_acceptance_stream(rep, rng, 300 if tier == "quick" else 8000): return
     common.scenario_check(rep, rng, "C18", 500 if tier == "quick" else 15000, keys=keys, transform=None, stream="complete",
                           theorem_names="C18_*", make=make_c18, oracle=oracle_c18,
                           nontrivial=lambda sc, g: bool(g["ops"]) and g["ops"][0].get("items", "") not in ("", "none"))
